@@ -419,7 +419,12 @@ def _eval_new_ctx(
         if ProcessingStage.PATH_COMMIT in stages:
             _logger.debug(f"Starting stage {ProcessingStage.PATH_COMMIT}")
             t = _time()
-            _store().sync_paths(store_paths)
+            # A keep that the evaluation did not reach (it sits under a condition that was false) has produced
+            # nothing: only the paths whose blob is in the store are committed, the other ones keep their content.
+            committed_paths = OrderedDict(
+                [(p, key) for (p, key) in store_paths.items() if _store().has_blob(key)]
+            )
+            _store().sync_paths(committed_paths)
             _add_delta(t, ProcessingStage.PATH_COMMIT)
             _logger.debug(f"Stage {ProcessingStage.PATH_COMMIT} done")
         else:
